@@ -47,9 +47,13 @@ def check_eval(prog):
             except PyRaise as pr:
                 return ("exc", pr)
         # unknown names pass, nothing is called
-        k, v = run(check, "no-such-format")
-        if k != "ret" or v is not None or calls:
-            out["unknown"] = "a format name the checker does not know does not simply pass"
+        for unk in ("no-such-format", "FALSE", "False", "Raises-Listed", " false", "false ", ""):
+            k, v = run(check, unk)
+            if k != "ret" or v is not None or calls:
+                out["unknown"] = "the format name %r, which the checker does not know (names are exact), does not simply pass" % unk
+            k, v = run(conforms, unk)
+            if k != "ret" or v is not True:
+                out["unknown"] = "conforms() is not True for the format name %r, which the checker does not know" % unk
         for name in ("truthy", "one", "text"):
             k, v = run(check, name)
             if k != "ret":
@@ -90,6 +94,42 @@ def check_eval(prog):
 
 
 DRAFTS = ("draft3", "draft4", "draft6", "draft7")
+
+
+def init_eval(prog):
+    """FormatChecker.__init__: the instance's table is a copy of the registry *of its own class* (a subclass may carry its own),
+    or the named subset of it."""
+    out = {"init": None}
+    try:
+        ev = Ev(prog, fuel=20000, real_errors=True)
+        Obj.ev = ev
+        c = prog.cls("_format.FormatChecker")
+        init = ev.find_method(c, "__init__")
+        f1, f2 = (lambda x: True), (lambda x: False)
+        own = {"own-a": (f1, ()), "own-b": (f2, (ValueError,))}
+        for formats, want in ((None, own), (["own-b"], {"own-b": own["own-b"]}), (iter(["own-a"]), {"own-a": own["own-a"]}), ((), {})):
+            o = Obj(c, {"checkers": own})      # an instance of a class whose registry is `own` (what a subclass's instances see)
+            o.ev = ev
+            ev.call_func(init, [o] + ([formats] if formats is not None else []), {})
+            got = o.attrs.get("checkers")
+            if got is own:
+                out["init"] = "the instance shares its class's registry object: registering on the instance would register class-wide"
+            elif got != want:
+                out["init"] = "FormatChecker(%s) of a class with the registry %s gets the table %s" % (
+                    "formats=%r" % (formats,) if formats is not None else "", sorted(own), sorted(got) if isinstance(got, dict) else got)
+        o = Obj(c, {"checkers": own})
+        o.ev = ev
+        try:
+            ev.call_func(init, [o, ["no-such"]], {})
+            out["init"] = "naming an unknown format in formats= raises nothing"
+        except PyRaise as pr:
+            if pr.name != "KeyError":
+                out["init"] = "naming an unknown format in formats= raises %s" % pr.name
+    except Undecided:
+        return None
+    except PyRaise as pr:
+        out["init"] = "raises %s (%s)" % (pr.name, pr.msg)
+    return out
 
 
 def registration_eval(prog):
